@@ -7,7 +7,7 @@
 (* Guards are in the order the code evaluates them (it decides *which*     *)
 (* error is reported, and whether a non-DeclarationError can escape).      *)
 (***************************************************************************)
-EXTENDS D42Schema, D42Known
+EXTENDS D42Schema
 
 Call(m, a) == [m |-> m, a |-> a]
 
